@@ -28,19 +28,6 @@ theorem inv_new (pieces : List (List UInt8)) (fail : Bool) : Inv (new pieces fai
     rw [List.getElem?_replicate]
     simp only [hi', ↓reduceIte]
 
-theorem countNonNul_all (l : List UInt8) (n : Nat) (hl : n ≤ l.length) (h : ∀ b ∈ l.take n, b ≠ 0) :
-    countNonNul l n = n := by
-  induction n generalizing l with
-  | zero => simp [countNonNul]
-  | succ k ih =>
-    cases l with
-    | nil => simp at hl
-    | cons b r =>
-      have hb : b ≠ 0 := h b (by simp)
-      simp only [countNonNul, beq_iff_eq, hb, ↓reduceIte]
-      rw [ih r (by simp at hl; omega) (fun x hx => h x (by simp [hx]))]
-      omega
-
 theorem overwrite_eq (l : List UInt8) (i : Nat) (src : List UInt8) (h : i + src.length ≤ l.length) :
     overwrite l i src = l.take i ++ src ++ l.drop (i + src.length) := by
   unfold overwrite
@@ -152,15 +139,19 @@ theorem window_grown (s : S) (h : Inv s) : ((grown s).drop s.cursor).take (s.len
   have e : s.cursor + (s.length - s.cursor) = s.length := by omega
   rw [e, grown_take s h s.length (by omega)]
 
-/-- **One refill**: under the invariant and with a NUL-free window, `read` does not panic, keeps
+/-- **One refill**: under the invariant — whatever bytes the window holds, NUL included — `read` does not panic, keeps
 the invariant, does not move the cursor, and neither loses nor duplicates a byte: the unread
 input (window followed by what the reader still holds) and the consumed count are unchanged —
 whether or not the buffer was doubled. -/
-theorem read_ok (s : S) (h : Inv s) (hnz : ∀ b ∈ window s, b ≠ 0) :
+theorem read_ok (s : S) (h : Inv s) :
     ∃ ok s', read s = some (ok, s') ∧ Inv s' ∧ unread s' = unread s ∧ consumed s' = consumed s ∧
       s'.cursor = s.cursor := by
   unfold read
-  by_cases har : s.allRead = true
+  by_cases hnul : (decide (s.cursor < s.length) && s.buf.getD s.cursor 1 == 0) = true
+  · simp only [hnul, ↓reduceIte]
+    exact ⟨false, { s with err := true }, rfl, ⟨h.cur_le, h.len_lt, h.size_ge, h.tail_zero⟩, rfl, rfl, rfl⟩
+  simp only [hnul, Bool.false_eq_true, ↓reduceIte]
+  by_cases har : (s.allRead || s.err) = true
   · simp only [har, ↓reduceIte]
     exact ⟨false, s, rfl, h, rfl, rfl, rfl⟩
   · simp only [har, Bool.false_eq_true, ↓reduceIte]
@@ -173,13 +164,7 @@ theorem read_ok (s : S) (h : Inv s) (hnz : ∀ b ∈ window s, b ≠ 0) :
     rw [hb1]
     simp only
     obtain ⟨_, _, hgl⟩ := grown_get s h 0
-    have hcnt : countNonNul ((grown s).drop s.cursor) (s.length - s.cursor) = s.length - s.cursor := by
-      apply countNonNul_all
-      · simp only [List.length_drop]; omega
-      · intro b hb; rw [window_grown s h] at hb; exact hnz b hb
-    rw [hcnt]
     have e : s.cursor + (s.length - s.cursor) = s.length := by omega
-    rw [e]
     have hsp : ((grown s).length - s.length == 0) = false := by
       simp only [beq_eq_false_iff_ne, ne_eq]; omega
     simp only [hsp, Bool.false_eq_true, ↓reduceIte]
@@ -246,8 +231,8 @@ theorem read_ok (s : S) (h : Inv s) (hnz : ∀ b ∈ window s, b ≠ 0) :
         rw [List.take_drop, e]
     cases err with
     | eof => exact ⟨true, _, rfl, key true⟩
-    | other => exact ⟨false, _, rfl, key false⟩
-    | none => exact ⟨true, _, rfl, key false⟩
+    | other => exact ⟨false, _, rfl, key s.allRead⟩
+    | none => exact ⟨true, _, rfl, key s.allRead⟩
 
 end GoJson.Model.Stream
 
@@ -272,24 +257,16 @@ theorem tracks_new (pieces : List (List UInt8)) (fail : Bool) : Tracks pieces.fl
   refine ⟨inv_new pieces fail, ?_, Nat.zero_le _⟩
   simp [unread, consumed, new]
 
-/-- **Every reachable state tracks the input.** For every NUL-free input, every way the reader
+/-- **Every reachable state tracks the input.** For every input, every way the reader
 cuts it into pieces (with or without a final failure), and every sequence of refills, resets and
 cursor advances: no operation panics, and the bytes not yet consumed are always exactly the input
 from position `offset + cursor` on — nothing lost, nothing duplicated, `InputOffset` exact. -/
-theorem step_tracks (input : List UInt8) (hnz : ∀ b ∈ input, b ≠ 0) (s : S) (h : Tracks input s) (op : Op) :
+theorem step_tracks (input : List UInt8) (s : S) (h : Tracks input s) (op : Op) :
     ∃ s', step s op = some s' ∧ Tracks input s' := by
   obtain ⟨hinv, hun, hle⟩ := h
-  have hwnz : ∀ b ∈ window s, b ≠ 0 := by
-    intro b hb
-    apply hnz
-    have : b ∈ unread s := by
-      obtain ⟨t, ht⟩ := window_prefix s
-      rw [ht]; exact List.mem_append_left _ hb
-    rw [hun] at this
-    exact List.mem_of_mem_drop this
   cases op with
   | read =>
-    obtain ⟨ok, s', hr, hinv', hun', hc', _⟩ := read_ok s hinv hwnz
+    obtain ⟨ok, s', hr, hinv', hun', hc', _⟩ := read_ok s hinv
     exact ⟨s', by simp [step, hr], hinv', by rw [hun', hc', hun], by rw [hc']; exact hle⟩
   | reset =>
     obtain ⟨hu, hc⟩ := reset_unread s hinv.cur_le
@@ -316,12 +293,12 @@ theorem step_tracks (input : List UInt8) (hnz : ∀ b ∈ input, b ≠ 0) (s : S
       simp only [List.length_drop] at this
       omega
 
-theorem trace_tracks (input : List UInt8) (hnz : ∀ b ∈ input, b ≠ 0) (ops : List Op) (s : S) (h : Tracks input s) :
+theorem trace_tracks (input : List UInt8) (ops : List Op) (s : S) (h : Tracks input s) :
     ∃ s', ops.foldlM step s = some s' ∧ Tracks input s' := by
   induction ops generalizing s with
   | nil => exact ⟨s, rfl, h⟩
   | cons op ops ih =>
-    obtain ⟨s1, hs1, ht1⟩ := step_tracks input hnz s h op
+    obtain ⟨s1, hs1, ht1⟩ := step_tracks input s h op
     obtain ⟨s', hs', ht'⟩ := ih s1 ht1
     exact ⟨s', by simp [List.foldlM, hs1, hs'], ht'⟩
 
